@@ -1,8 +1,8 @@
 // verifsim: supervisor of the deterministic-simulation checks for zapx.
 //
-//   verifsim check <id> [--tier quick|thorough]   rebuild workers from /repo, fan out seeded runs, minimise, report
-//   verifsim replay <file>                        re-execute a replay file in a fresh worker process
-//   verifsim selftest [--seeds N]                 determinism self-test (maintenance; not part of any verdict)
+//	verifsim check <id> [--tier quick|thorough]   rebuild workers from /repo, fan out seeded runs, minimise, report
+//	verifsim replay <file>                        re-execute a replay file in a fresh worker process
+//	verifsim selftest [--seeds N]                 determinism self-test (maintenance; not part of any verdict)
 //
 // Exit codes: 0 property held on everything explored (possibly after
 // KNOWN-FINDING lines); 1 with a line "VIOLATION property=<id> replay=<path>";
@@ -70,12 +70,12 @@ func share(v Variant, s int) Variant { v.Share = s; return v }
 
 var realStub = map[string]string{
 	"zapx (package zap), built from /repo working tree":                         "real",
-	"vellum, roaring, snappy, mmap-go, bleve_index_api, scorch_segment_api":      "real",
-	"Linux page cache, mmap, fsync, unlink, RLIMIT_FSIZE, /dev/full, /dev/null":  "real kernel",
-	"go-faiss + native libfaiss (vectors build only)":                            "stub (pure-Go exact engine with accounting and fault plan, /verif/stubs/go-faiss)",
-	"text analysis (tokenisation, norms)":                                        "not part of zapx; harness supplies analysed fields",
-	"goroutine scheduling among simulated tasks":                                 "simulator (seeded baton scheduler)",
-	"vector cache expiry timer":                                                  "simulator (explicit expiry event through the verif hook; 1 s ticker parked)",
+	"vellum, roaring, snappy, mmap-go, bleve_index_api, scorch_segment_api":     "real",
+	"Linux page cache, mmap, fsync, unlink, RLIMIT_FSIZE, /dev/full, /dev/null": "real kernel",
+	"go-faiss + native libfaiss (vectors build only)":                           "stub (pure-Go exact engine with accounting and fault plan, /verif/stubs/go-faiss)",
+	"text analysis (tokenisation, norms)":                                       "not part of zapx; harness supplies analysed fields",
+	"goroutine scheduling among simulated tasks":                                "simulator (seeded baton scheduler)",
+	"vector cache expiry timer":                                                 "simulator (explicit expiry event through the verif hook; 1 s ticker parked)",
 }
 
 type Violation struct {
@@ -97,6 +97,7 @@ type RunResult struct {
 	Stats      map[string]int         `json:"stats,omitempty"`
 	Digest     string                 `json:"digest"`
 	States     []string               `json:"states,omitempty"`
+	Scheds     []string               `json:"scheds,omitempty"`
 	NonTrivial bool                   `json:"nontrivial"`
 	Sample     map[string]interface{} `json:"sample,omitempty"`
 	Choices    int                    `json:"choices"`
@@ -210,7 +211,6 @@ func variantByName(cfg *PropCfg, name string) (Variant, bool) {
 	}
 	return Variant{}, false
 }
-
 
 // rssKB returns the resident set size of a process in KiB (0 when unknown).
 func rssKB(pid int) int64 {
